@@ -38,8 +38,7 @@ Print Assumptions mro_shape.
 
 (* (a) for every signature (any number of parameters of any kind, positional-only included) and every call
    made of positional and keyword arguments (any number, distinct keywords): mypy's argument-count checks
-   accept the call iff CPython's argument binding succeeds.  PARTIAL w.r.t. the property text: *tuple and
-   **TypedDict actuals are outside the modelled fragment (StatementAB). *)
+   accept the call iff CPython's argument binding succeeds.  (Star actuals: arity_agrees_star below.) *)
 Theorem arity_agrees : forall sig c, wf_sig sig -> determinate c ->
   (mypy_accepts sig c = true <-> cpython_bind sig c = BindOk).
 Proof. exact BindProofs.arity_agrees. Qed.
@@ -56,6 +55,46 @@ Proof.
   cbv zeta. repeat split; try (vm_compute; reflexivity).
   - simpl. repeat constructor; simpl; intuition discriminate.
   - unfold determinate. simpl. repeat constructor; simpl; intuition discriminate.
+Qed.
+
+(* (a) with star actuals: any mix of plain positionals and *tuples of known length, explicit keywords and
+   **TypedDicts (all keys present).  The FULL statement (StatementAB.arity_agrees_star_full: the iff for every
+   such call) is REFUTED by the faithful model in exactly three ways, each replayed on real mypy + CPython: *)
+Theorem arity_star_refuted_L1 : exists sig c, wf_sig sig /\ no_L2 sig c = true /\ no_L3 c = true /\
+  mypy_accepts_s sig c = true /\ cpython_bind_s sig c = TypeError.
+Proof. exact BindProofs.arity_star_refuted_L1. Qed.
+Print Assumptions arity_star_refuted_L1.
+Theorem arity_star_refuted_L2 : exists sig c, wf_sig sig /\ no_L1 sig c = true /\ no_L3 c = true /\
+  mypy_accepts_s sig c = true /\ cpython_bind_s sig c = TypeError.
+Proof. exact BindProofs.arity_star_refuted_L2. Qed.
+Print Assumptions arity_star_refuted_L2.
+Theorem arity_star_refuted_L3 : exists sig c, wf_sig sig /\ no_L1 sig c = true /\ no_L2 sig c = true /\
+  mypy_accepts_s sig c = true /\ cpython_bind_s sig c = TypeError.
+Proof. exact BindProofs.arity_star_refuted_L3. Qed.
+Print Assumptions arity_star_refuted_L3.
+
+(* ... and holds for every other call: outside L1 (TypedDict key named like the *args parameter, no **kwargs),
+   L2 (a *tuple item and a **TypedDict key for the same parameter) and L3 (a keyword supplied twice after
+   expansion) mypy accepts iff CPython binds.  Any number of parameters, star actuals and keywords. *)
+Theorem arity_agrees_star : forall sig c, wf_sig sig -> plain_like sig c = true ->
+  (mypy_accepts_s sig c = true <-> cpython_bind_s sig c = BindOk).
+Proof. exact BindProofs.arity_agrees_star. Qed.
+Print Assumptions arity_agrees_star.
+
+(* on such calls mypy's star-aware mapping/checks give the verdict of the expanded plain call *)
+Theorem mypy_star_is_expansion : forall sig c, shape sig = true -> plain_like sig c = true ->
+  mypy_accepts_s sig c = mypy_accepts sig (expand c).
+Proof. exact BindProofs.mypy_accepts_s_expand. Qed.
+Print Assumptions mypy_star_is_expansion.
+
+(* def f(a, *, b): f( *(0, 0)) is rejected on both sides; f( *(0,), **{b}) accepted on both *)
+Example arity_star_example :
+  let sig := [mkF ARG_POS (Some 1); mkF ARG_NAMED (Some 2)] in
+  wf_sig sig /\ plain_like sig (mkCallS [PStar 2] []) = true /\ mypy_accepts_s sig (mkCallS [PStar 2] []) = false /\
+  plain_like sig (mkCallS [PStar 1] [KTD [2]]) = true /\ mypy_accepts_s sig (mkCallS [PStar 1] [KTD [2]]) = true /\
+  cpython_bind_s sig (mkCallS [PStar 1] [KTD [2]]) = BindOk.
+Proof.
+  cbv zeta. repeat split; try (vm_compute; reflexivity). simpl. repeat constructor; simpl; intuition discriminate.
 Qed.
 
 (* non-vacuity: a diamond, and an inconsistent hierarchy *)
